@@ -205,10 +205,27 @@ fn ltk_case(out: &mut Out, seed: &[u8]) {
             let c13b = ltk.make_cert(&Version::RfcDraft13, &onl13).encode().unwrap(); // a later "restart"
             // three Server instances from the same seed (workers / restarts)
             let mut pubs = vec![];
-            for _ in 0..3 {
+            // ... and what each of them treats as ITS OWN SRV value when a request names a server (the value the
+            // server matches requests against is part of its identity; seeded change C10-r5 derived it from the hex
+            // text of the public key): a request carrying SHA-512(0xff || pk)[0..32], computed here independently,
+            // must be answered, one carrying another value must not. One digit pair per instance: "10" is right.
+            let mut srvprobe = String::new();
+            let own = crate::wire::srv_of_seed(&seed_v);
+            for k in 0..3 {
                 let cfg = RigCfg { seed: seed_v.clone(), batch: 64, fault: 0, per_client: false, level: "off".into(), status: None };
-                let rig = Rig::new(cfg, 0);
+                let mut rig = Rig::new(cfg, 2);
                 pubs.push(rig.server.get_public_key().to_string());
+                let mut other = own.clone();
+                other[(7 * k + 3) % 32] ^= 1 << (k % 8);
+                let n1: Vec<u8> = (0..32).map(|i| (i * 5 + k) as u8).collect();
+                let n2: Vec<u8> = (0..32).map(|i| (i * 3 + 100 + k) as u8).collect();
+                rig.send(0, &crate::wire::ietf_request(&crate::wire::VER13, Some(&own), &n1, 1024));
+                rig.send(1, &crate::wire::ietf_request(&crate::wire::VER13, Some(&other), &n2, 1024));
+                rig.process_burst(2);
+                let got = rig.drain();
+                let a0 = got.iter().filter(|(c, _)| *c == 0).count();
+                let a1 = got.iter().filter(|(c, _)| *c == 1).count();
+                srvprobe.push_str(&format!("{}{}", a0.min(9), a1.min(9)));
             }
             // the model takes the online seeds as parameters drawn afresh from the OS for every OnlineKey::new():
             // delegated keys of distinct key objects / Server instances must differ
@@ -226,8 +243,8 @@ fn ltk_case(out: &mut Out, seed: &[u8]) {
             formatted.push_str(&format!("{} {:?} {} {} {}", signer, signer, ltk, onl13, onl0));
             let degenerate = seed_v.iter().all(|b| *b == seed_v[0]);
             let fmtleak = if degenerate { None } else { crate::wire::leak_scan(&crate::wire::secret_patterns(&seed_v), formatted.as_bytes()) };
-            format!("pk={} srv={} cert13={} cert0={} cert13b={} pubs={} display={} fmtleak={} onl_distinct={}", hex(&pk), hex(&srv), hex(&c13), hex(&c0), hex(&c13b), pubs.join(","), format!("{}", ltk),
-                fmtleak.map(|x| x.replace(' ', "_")).unwrap_or_else(|| "none".to_string()), onl_distinct as u8)
+            format!("pk={} srv={} cert13={} cert0={} cert13b={} pubs={} display={} fmtleak={} onl_distinct={} srvprobe={}", hex(&pk), hex(&srv), hex(&c13), hex(&c0), hex(&c13b), pubs.join(","), format!("{}", ltk),
+                fmtleak.map(|x| x.replace(' ', "_")).unwrap_or_else(|| "none".to_string()), onl_distinct as u8, srvprobe)
         });
         r.unwrap_or_else(|| "panic".to_string())
     });
